@@ -600,28 +600,26 @@ def eye(N, chunks="auto", M=None, k=0, dtype=float):
         raise ValueError("chunks must be an int or string")
 
     vchunks, hchunks = normalize_chunks(chunks, shape=(N, M), dtype=dtype)
-    chunks = vchunks[0]
 
-    token = tokenize(N, chunks, M, k, dtype)
+    token = tokenize(N, vchunks, hchunks, M, k, dtype)
     name_eye = f"eye-{token}"
 
     dsk = {}
+    row = 0
     for i, vchunk in enumerate(vchunks):
+        col = 0
         for j, hchunk in enumerate(hchunks):
             key = (name_eye, i, j)
-            if (j - i - 1) * chunks <= k <= (j - i + 1) * chunks:
-                t = Task(
-                    key,
-                    np.eye,
-                    vchunk,
-                    hchunk,
-                    k - (j - i) * chunks,
-                    dtype,
-                )
+            # offset of the k-th diagonal inside the block starting at (row, col)
+            kk = k - (col - row)
+            if -vchunk < kk < hchunk:
+                t = Task(key, np.eye, vchunk, hchunk, kk, dtype)
             else:
                 t = Task(key, np.zeros, (vchunk, hchunk), dtype)
             dsk[t.key] = t
-    return Array(dsk, name_eye, shape=(N, M), chunks=(chunks, chunks), dtype=dtype)
+            col += hchunk
+        row += vchunk
+    return Array(dsk, name_eye, shape=(N, M), chunks=(vchunks, hchunks), dtype=dtype)
 
 
 @derived_from(np)
